@@ -4,8 +4,14 @@
 (* wrote is judged by TLC with the operators of C12_CSE; one printed line  *)
 (* per record that is not plainly OK.                                      *)
 (*                                                                         *)
-(* tag record  [id, kind, ins, r, outs, nodes, evs, vals, fcalls, houts,   *)
-(*              hvals]:                                                    *)
+(* tag record  [id, kind, ins, shs, runs, obs]: the list was built once per *)
+(*   object-sharing layout shs[i] (shs[1] = no sharing) and tagged; obs are *)
+(*   the DISTINCT observations [r, outs, nodes, evs, vals, fcalls, houts,   *)
+(*   hvals], runs[i] the index of the observation of layout i.  EVERY       *)
+(*   observation is judged by the same clauses (no clause looks at the      *)
+(*   layout: the statement's claims do not depend on how the caller shared  *)
+(*   his objects); a failure that the unshared list does not show carries   *)
+(*   the class of the first layout that shows it.  Per observation:         *)
 (*   length            as many outputs as inputs                           *)
 (*   value-tree        Eval(out[j]) = Eval(in[j]) in every environment     *)
 (*   value-evaluated   what ONE instrumented evaluator instance per        *)
@@ -57,21 +63,22 @@ TreeValues(ins, outs) ==
     IF \E i \in 1..Len(vs) : vs[i] \notin {"OK", "SKIP"}
     THEN vs[CHOOSE i \in 1..Len(vs) : vs[i] \notin {"OK", "SKIP"}] ELSE ""
 
-F(c, pat) == [c |-> c, pat |-> pat, hosts |-> << >>]
+F(c, pat) == [c |-> c, pat |-> pat, hosts |-> << >>, lay |-> "", ob |-> 1]
 \* a sharing failure outside the known pattern names where the unshared occurrences stand
 FS(c, outs, ins, Rs) ==
     LET pat == SharingPattern(ins, Rs) IN
-    [c |-> c, pat |-> pat, hosts |-> IF pat = "plain" THEN SharingHosts(outs, Rs) ELSE << >>]
+    [c |-> c, pat |-> pat, hosts |-> IF pat = "plain" THEN SharingHosts(outs, Rs) ELSE << >>,
+     lay |-> "", ob |-> 1]
 Opt(cond, x) == IF cond THEN << x >> ELSE << >>
 
-TagReport(rec) ==
-    IF rec.r # "ok" THEN [id |-> rec.id, fails |-> << F("tag-raised", rec.err.e) >>,
+\* one observation rec of the list ins
+ObsReport(ins, rec) ==
+    IF rec.r # "ok" THEN [fails |-> << F("tag-raised", rec.err.e) >>,
                           skip |-> 0, drift |-> << >>, obs |-> << >>]
-    ELSE IF Len(rec.outs) # Len(rec.ins)
-    THEN [id |-> rec.id, fails |-> << F("length", "") >>, skip |-> 0, drift |-> << >>, obs |-> << >>]
+    ELSE IF Len(rec.outs) # Len(ins)
+    THEN [fails |-> << F("length", "") >>, skip |-> 0, drift |-> << >>, obs |-> << >>]
     ELSE
-    LET ins   == rec.ins
-        outs  == rec.outs
+    LET outs  == rec.outs
         evs   == [k \in 1..Len(rec.evs) |-> EvOf(rec, rec.evs[k])]
         run   == RunEvents(NewInst(1), evs, Envs)
         I     == run.I
@@ -104,8 +111,34 @@ TagReport(rec) ==
               \o Opt({R \in OccRs(occs) : NClassesC(cls, R) = 0} # {}, "unattributed-nodes")
               \o Opt(~whole /\ run.bad = "", "canonical-history-raised")
               \o Opt(~scope /\ (sbad # {} \/ obad # {}), "out-of-scope-not-shared")
-    IN [id |-> rec.id, fails |-> fails, skip |-> NSkipped(ins, rec.vals),
-        drift |-> drift, obs |-> obs]
+    IN [fails |-> fails, skip |-> NSkipped(ins, rec.vals), drift |-> drift, obs |-> obs]
+
+TagReport(rec) ==
+    LET n    == Len(rec.obs)
+        reps == [k \in 1..n |-> ObsReport(rec.ins, rec.obs[k])]
+        \* the first layout that produced observation k
+        layOf(k) == rec.shs[CHOOSE i \in 1..Len(rec.runs) :
+                               rec.runs[i] = k /\ \A i2 \in 1..(i - 1) : rec.runs[i2] # k].cls
+        base == SeqToSet(reps[1].fails)
+        \* failures of a shared layout that the unshared list shows as well are the same failure
+        more(k) == LET fs == SelectSeq(reps[k].fails, LAMBDA f : f \notin base) IN
+                   [i \in 1..Len(fs) |-> [fs[i] EXCEPT !.lay = layOf(k), !.ob = k]]
+        Flat(ss) == LET RECURSIVE Go(_)
+                        Go(k) == IF k > Len(ss) THEN << >> ELSE ss[k] \o Go(k + 1)
+                    IN Go(1)
+        wellformed == /\ n >= 1 /\ Len(rec.runs) = Len(rec.shs) /\ Len(rec.runs) >= 1
+                      /\ rec.runs[1] = 1 /\ rec.shs[1].mode = "none"
+                      /\ \A i \in 1..Len(rec.runs) : rec.runs[i] \in 1..n
+                      /\ \A k \in 1..n : \E i \in 1..Len(rec.runs) : rec.runs[i] = k
+    IN IF ~wellformed
+       THEN [id |-> rec.id, fails |-> << F("ill-formed-record", "") >>, skip |-> 0,
+             drift |-> << >>, obs |-> << >>]
+       ELSE [id |-> rec.id,
+             fails |-> Flat([k \in 1..n |-> IF k = 1 THEN reps[1].fails ELSE more(k)]),
+             skip  |-> reps[1].skip,
+             drift |-> Flat([k \in 1..n |-> reps[k].drift]),
+             obs   |-> Flat([k \in 1..n |-> reps[k].obs])
+                       \o Opt(n > 1, "output-depends-on-object-sharing")]
 
 WrapReport(rec) ==
     IF rec.res.r = "unser"
